@@ -226,6 +226,17 @@ func judgeFwd(rep *lib.Report, ln fwdLine, haveModel bool) {
 			rep.Violate("fwd:after-panic", fmt.Sprintf("redact: directive %q on [panicking element, probe]: the probe observed %+v, alone it observes %+v (output %q)", f, o3, o1, out), kase)
 		}
 	}
+	// ... nor must any other earlier element (the printer changes its flags while printing some kinds, e.g. the
+	// imaginary part of a complex number, and has to put them back)
+	for _, sib := range []interface{}{complex(1, 2), complex64(complex(-1, 0.5)), 1.5, "s", []int{1, 2}, struct{ A int }{1}, nil, true, []byte("b"), redact.Safe(3), redact.Unsafe("u")} {
+		var o4, o1 obs
+		out := string(redact.Sprintf(f, append(append([]interface{}{}, stars...), []interface{}{sib, fProbe{&o4}})...))
+		redact.Sprintf(f, append(append([]interface{}{}, stars...), fProbe{&o1})...)
+		rep.AddEval(1)
+		if o4.Calls != 1 || !o1.same(o4) || o1.MF != o4.MF {
+			rep.Violate("fwd:after-sibling", fmt.Sprintf("redact: directive %q on [%#v, probe]: the probe observed %+v, alone it observes %+v (output %q)", f, sib, o4, o1, out), kase)
+		}
+	}
 	// (c),(d) under the standard fmt, Safe(x), Unsafe(x) and a forwarding formatter print exactly like x
 	for _, x := range fwdKinds {
 		mk := func(v interface{}) []interface{} { return append(append([]interface{}{}, stars...), v) }
